@@ -573,7 +573,7 @@ def value_getattr(eng, base, attr, line):
         return PyVal("valmethod", self_=base, name=attr)
     if isinstance(s, MapOf) and attr in MAP_METHODS:
         return PyVal("valmethod", self_=base, name=attr)
-    if isinstance(s, Ref) and eng.spec.is_struct(s.cls) and attr in ("get", "clear"):
+    if isinstance(s, Ref) and eng.spec.is_struct(s.cls) and attr in ("get", "clear", "update"):
         return PyVal("valmethod", self_=base, name=attr)
     if s == REAL and attr in ("quantize", "total_seconds", "date", "hour", "replace", "utcnow"):
         return PyVal("valmethod", self_=base, name=attr) if attr != "hour" else dt_hour(base)
